@@ -40,6 +40,11 @@ def run(ctx, ss):
         ctx.guard(r, f, ss)
     from .c11 import ctor_clauses
     ctx.guard("C12.5", ctor_clauses, ss, "C12.5")
+    # C12.6: nothing on the way from the observed entry points is memoised on a parser / tree / path / container (shared.py)
+    from .shared import memo_for
+    ctx.guard("C12.6", memo_for, ss, "C12", "C12.6", "a flattening")
+    from .c11 import chain_ctor_clauses
+    ctx.guard("C12.5", chain_ctor_clauses, ss, "C12.5")
 
 
 def c12_1(ctx, ss):
